@@ -22,7 +22,7 @@ ASSUMPTIONS = ["operations only one side supports (optimized FQP * FQ raises Typ
 ENGINE = "hypothesis (recursive expression trees) + exhaustive depth-1/2 trees on small fields"
 TECHNIQUE = ("differential property-based testing: Hypothesis expression trees and exhaustive small fields evaluated in the reference and the optimized classes")
 REQUIRED_LABELS = {t: ["tree:depth>=3", "node:div", "node:pow", "node:pow>=745bits", "node:int_mix",
-                       "field:real:fq12", "field:small:fq12", "build:fq_coeffs", "cmp"]
+                       "field:real:fq12", "field:small:fq12", "build:fq_coeffs", "cmp", "sgn0:after_arithmetic", "interleaved_moduli"]
                    for t in ("quick", "thorough")}
 
 BIN = ("add", "sub", "mul", "div")
@@ -163,6 +163,23 @@ def o_sgn0(ctx, case):
     ctx.check(x.sgn0 == want, "sgn0", "mismatch", case, f"sgn0({v}) = {x.sgn0}, RFC 9380: {want}",
               {"kind_f": pr.kind})
     ctx.check(x.sgn0 == x.sgn0, "sgn0", "cache", case, "cached sgn0 differs")
+    # the sign of a COMPUTED element, after the sign of its operands has been read (sgn0 is memoised per
+    # instance: nothing of an operand's memo may travel into a result)
+    if "b" in case:
+        w = tuple(case["b"]) if isinstance(case["b"], list) else case["b"]
+        y = build(pr.opt, w, False, pr.opt_fq)
+        _ = (x.sgn0, y.sgn0)
+        F = pr.opt.F
+        xv, yv = (F.el(v), F.el(w)) if not pr.opt.is_fq else (v % pr.p, w % pr.p)
+        ops = [("add", x + y, F.add(xv, yv)), ("sub", x - y, F.sub(xv, yv)), ("mul", x * y, F.mul(xv, yv)),
+               ("rsub", y - x, F.sub(yv, xv)), ("neg", -x, F.neg(xv)), ("mul3", x * 3, F.smul(xv, 3))]
+        if not F.is_zero(yv):
+            ops.append(("div", x / y, F.div(xv, yv)))
+        for nm, res, val in ops:
+            want_r = F.sgn0(val) if not pr.opt.is_fq else val % 2
+            ctx.check(res.sgn0 == want_r, "sgn0", f"after_{nm}", case,
+                      f"sgn0 of the result of {nm} = {res.sgn0}, RFC 9380 on its value {val}: {want_r}", {"kind_f": pr.kind})
+        ctx.label("sgn0:after_arithmetic")
 
 
 ORACLES = {"tree": o_tree, "sgn0": o_sgn0, "small": o_tree}
@@ -201,6 +218,9 @@ def t_small_exh(ctx, p, mc):
         for k in range(-p - 1, 2 * p + 2):
             for op in int_ops:
                 cmp([op, ["var", 0], k], [a])
+    if len(els) <= 200:
+        for a, b in itertools.product(els, repeat=2):
+            o_sgn0(ctx, dict(desc, a=list(a) if isinstance(a, tuple) else a, b=list(b) if isinstance(b, tuple) else b))
     for a, b in itertools.product(els, repeat=2):
         for op1 in BIN:
             cmp([op1, ["var", 0], ["var", 1]], [a, b])
@@ -301,6 +321,8 @@ def t_trees(ctx, p, mc, real, kind, shard, n, big_budget):
             ex.append(dict(base, tree=["bad_add_i", ["var", 0], 1], vars=v, fq_coeffs=False))
             ex.append(dict(base, tree=["add", ["var", 0], ["var", 1]], vars=v, fq_coeffs=True))
     drive(ctx, f"trees{shard}", strat, lambda c: o_tree(ctx, c), n, ex, shrink=(d < 12))
+    sg = st.fixed_dictionaries({"a": el, "b": el}).map(lambda c: dict(base, **c))
+    drive(ctx, f"sgn0{shard}", sg, lambda c: o_sgn0(ctx, c), max(6, n // 4), shrink=(d < 12))
 
 
 def t_interleaved(ctx, p, count):
